@@ -129,6 +129,79 @@ func nonNilError(f *ssa.Function, at *ssa.BasicBlock, v, e ssa.Value) bool {
 	return provablyNonNil(f, at, v)
 }
 
+// cycleOf: the blocks that lie on a cycle through b (empty when b is not in a loop).
+func cycleOf(b *ssa.BasicBlock) map[*ssa.BasicBlock]bool {
+	fwd := map[*ssa.BasicBlock]bool{}
+	work := append([]*ssa.BasicBlock{}, b.Succs...)
+	for len(work) > 0 {
+		x := work[len(work)-1]
+		work = work[:len(work)-1]
+		if fwd[x] {
+			continue
+		}
+		fwd[x] = true
+		work = append(work, x.Succs...)
+	}
+	if !fwd[b] {
+		return nil
+	}
+	out := map[*ssa.BasicBlock]bool{}
+	for x := range fwd {
+		if engine.Reachable(x, b) {
+			out[x] = true
+		}
+	}
+	return out
+}
+
+// overwrittenInLoop: the error of call c, made inside a loop, only goes into a
+// loop-carried variable (a header phi, or a store into a local) that nothing
+// reads inside the loop: the next iteration's call overwrites it, so only the
+// last iteration's failure can ever be seen.
+func overwrittenInLoop(c *ssa.Call, use ssa.Instruction) bool {
+	cyc := cycleOf(c.Block())
+	if cyc == nil {
+		return false
+	}
+	readInLoop := func(refs []ssa.Instruction) bool {
+		for _, ref := range refs {
+			if ref == use || !cyc[ref.Block()] {
+				continue
+			}
+			switch y := ref.(type) {
+			case *ssa.Store:
+				if y.Addr != nil {
+					if _, isStoreInto := use.(*ssa.Store); isStoreInto && y.Addr == use.(*ssa.Store).Addr {
+						continue // another assignment, not a read
+					}
+				}
+				return true
+			case *ssa.Phi:
+				continue // merged again, still unread
+			default:
+				_ = y
+				return true
+			}
+		}
+		return false
+	}
+	switch x := use.(type) {
+	case *ssa.Phi:
+		if !cyc[x.Block()] {
+			return false
+		}
+		return !readInLoop(engine.Referrers(x))
+	case *ssa.Store:
+		a, ok := x.Addr.(*ssa.Alloc)
+		if !ok {
+			return false
+		}
+		// a read of the local anywhere in the loop looks at (some iteration's) error
+		return !readInLoop(engine.Referrers(a))
+	}
+	return false
+}
+
 func errGuard(r *engine.Run, ruleGuard, ruleDrop string, funcs []*ssa.Function, minGuards int) {
 	guards, drops := 0, 0
 	for _, f := range funcs {
@@ -154,7 +227,15 @@ func errGuard(r *engine.Run, ruleGuard, ruleDrop string, funcs []*ssa.Function, 
 						if x.Op == token.EQL || x.Op == token.NEQ {
 							looked = true
 						}
-					case *ssa.Return, *ssa.Store, *ssa.Phi, *ssa.MakeInterface, *ssa.TypeAssert, *ssa.ChangeInterface:
+					case *ssa.Store:
+						if !overwrittenInLoop(c, x) {
+							looked = true
+						}
+					case *ssa.Phi:
+						if !overwrittenInLoop(c, x) {
+							looked = true
+						}
+					case *ssa.Return, *ssa.MakeInterface, *ssa.TypeAssert, *ssa.ChangeInterface:
 						looked = true
 					case *ssa.Call:
 						// handed to a repo function (wrapping helpers) counts; loggers do not
@@ -188,7 +269,7 @@ func errGuard(r *engine.Run, ruleGuard, ruleDrop string, funcs []*ssa.Function, 
 					r.OK(ruleDrop, od.next(fn(f)+"|"+opName+" (allowed drop)"), r.P.Pos(c.Pos()), "deliberately not looked at: "+reason)
 				} else {
 					r.Check(looked, ruleDrop, od.next(fn(f)+"|"+opName), r.P.Pos(c.Pos()), "the error result is compared, returned or stored",
-						"the error result of "+opName+" is never looked at: after a failure the operation carries on with results that do not exist (an absent node, a failed store write) and reports success")
+						"the error result of "+opName+" is never looked at (or, in a loop, is overwritten by the next iteration before anything reads it): after a failure the operation carries on with results that do not exist (an absent node, a failed store write) and reports success")
 				}
 			}
 			if dropped || e == nil {
